@@ -6,8 +6,7 @@
    [SkipNow st]  it left the script through T.Skip.
 
    Not modelled (a line that uses them fails and sets [s_unmodelled]): ttyin, ttyout,
-   regular expressions outside the fragment of [parse_pat], the engine's own crash on
-   `exec &name&` (slice bounds), programs other than the helper (they are "not found"),
+   regular expressions outside the fragment of [parse_pat], programs other than the helper (they are "not found"),
    deadlines (ctxt.Err), and every text written to the log. *)
 From Coq Require Import List Bool Arith NArith.
 From Coq.Strings Require Import Byte.
@@ -187,8 +186,8 @@ Fixpoint mkdir_loop (args : list bytes) (st : state) : outcome :=
   | [] => Done st
   | a :: r =>
       match mkdir_all (s_fs st) (mkabs st a) 511 with
-      | Some t => mkdir_loop r (set_fs st t)
-      | None => Failed st
+      | (t, true) => mkdir_loop r (set_fs st t)
+      | (t, false) => Failed (set_fs st t)
       end
   end.
 Definition cmd_mkdir (args : list bytes) (st : state) : outcome :=
@@ -516,8 +515,9 @@ Definition cmd_exec (cfg : config) (neg : bool) (args : list bytes) (st : state)
       | Some name =>
           match rest with
           | [] =>
-              (* `exec &`: usage; `exec &name&`: the engine itself crashes (args[1:0]) *)
-              match name with [] => Failed st | _ => Failed (set_unmodelled st) end
+              (* `exec &` and `exec &name&`: no program, usage error (corrected behaviour: the
+                 unrepaired code indexed args[1:0] for `exec &name&`) *)
+              Failed st
           | _ =>
               match find_bg (s_bg st) name with
               | Some _ => Failed st
